@@ -26,7 +26,7 @@ ASSUMPTIONS = [
 
 TEXT_KEYS = ["name", "path", "ext", "dir", "mode"]
 NUM_KEYS = ["size", "size", "uid", "gid", "hardlinks", "length(name)", "size + 1", "size * 2", "length(name) + size",
-            "inode", "blocks"]
+            "inode", "blocks", "day(modified)", "month(modified)", "year(modified)", "day(modified)"]
 DATE_KEYS = ["modified"]
 EXTRA_COLS = ["name", "size", "ext", "modified", "mode", "uid", "hardlinks", "dir", "is_dir", "length(name)"]
 
